@@ -42,6 +42,11 @@ def walk_mib(rng):
             o = gen.oid(rng, prefix=(1, 3), min_extra=1, max_extra=5)
         if len(o) >= 2 and (o[0] == 2 or o[1] <= 39) and 80 + o[1] < 2**32:
             rows[o] = gen.value(rng, WALK_KINDS)
+    if rows and rng.random() < 0.12:
+        # very long names: many sub-identifiers (up to the SMI limit of 128), each taking two or more octets
+        for _ in range(rng.randint(1, 3)):
+            o = base + tuple(rng.choice([128, 200, 16383, 16384, 2**32 - 1]) for _ in range(rng.randint(40, max(41, 126 - len(base)))))
+            rows[o] = gen.value(rng, WALK_KINDS)
     return base, [[gen.oid_text(o), v] for o, v in sorted(rows.items())]
 
 
